@@ -20,7 +20,8 @@
 //     type; a pointer to a struct becomes `Option <structure>` and a field
 //     access through a nil pointer makes the result `none` (a panic);
 //   - statements: if / else, expression-less and tagged switch (no
-//     fallthrough), return (also naked), :=, =, op=, ++, --, var, assignments
+//     fallthrough), return (also naked), :=, =, op=, ++, --, var, local const
+//     (folded at its uses), assignments
 //     to fields of the receiver or of local struct values; statements after a
 //     branching statement are duplicated into both branches;
 //   - expressions: literals, constants (folded with go/types, so imported
@@ -1346,6 +1347,9 @@ func (c *fctx) stmts(list []ast.Stmt) string {
 		return c.stmts(rest)
 	case *ast.DeclStmt:
 		gd, ok := x.Decl.(*ast.GenDecl)
+		if ok && gd.Tok == token.CONST {
+			return c.stmts(rest) // local constants are folded where they are used
+		}
 		if !ok || gd.Tok != token.VAR {
 			fail("declaration %s", c.show(x))
 		}
